@@ -86,7 +86,10 @@ func (s *signer) AcmeAccount(endpoint, emails string, termsAgreed bool) {
 	if reflect.DeepEqual(s.account, account) {
 		return
 	}
+	// the account is forgotten together with its client, so the same
+	// account gets a new client if it is configured again later
 	s.client = nil
+	s.account = Account{}
 	if endpoint == "" && emails == "" && !termsAgreed {
 		return
 	}
